@@ -373,6 +373,44 @@ def c09(res):
                 out.append(("lock_only_flag", {"op": rec["n"]}, "lock/unlock changed something else than that flag"))
     return out
 
+def c09_standalone(res):
+    """Parameters::group(const Group&) on stand-alone objects (ops `sa ...`): a group of a new name is appended; otherwise its
+    parameters are stored one by one (replace the first of that name in place, else append) into the LAST stored group of that
+    name; nothing else moves. Independent mirror over the harness' own dumps (X lines = the Parameters object, Y = the Group)."""
+    out = []
+    def parse(lines, tag):
+        gs = []
+        for l in lines:
+            t = l.split(" ")
+            if t[0] == tag + "G": gs.append({"name": t[2], "desc": t[3], "locked": t[4], "params": []})
+            elif t[0] == tag + "P": gs[int(t[1])]["params"].append(tuple(t[3:]))
+        return gs
+    sp = None; sg = None
+    lines = res.script.split("\n")
+    for rec in res.hrecs:
+        t = lines[rec["n"] - 1].split(" ")
+        if rec["op"] != "sa": continue
+        if t[1] == "pnew": sp = parse(rec["lines"], "X")
+        elif t[1] in ("gnew", "gparam"):
+            g = parse(rec["lines"], "Y")
+            if g: sg = g[0]
+        elif t[1] == "pgroup" and sp is not None and sg is not None:
+            got = parse(rec["lines"], "X")
+            idx = [i for i, g in enumerate(sp) if g["name"] == sg["name"]]
+            exp = [dict(g, params=list(g["params"])) for g in sp]
+            if not idx: exp.append(dict(sg, params=list(sg["params"])))
+            else:
+                tgt = exp[idx[-1]]
+                for p in sg["params"]:
+                    names = [q[0] for q in tgt["params"]]
+                    if p[0] in names: tgt["params"][names.index(p[0])] = p
+                    else: tgt["params"].append(p)
+            out.append(("_c09_standalone_merges_checked", {}, ""))
+            if rec["res"] != "R ok" or got != exp:
+                out.append(("group_merge", {"op": rec["n"], "existing": bool(idx)}, "Parameters::group(g) did not append / merge as documented (%s)" % rec["res"]))
+            sp = got
+    return out
+
 # ---------------------------------------------------------------- C11
 def c11(res):
     out = []
